@@ -33,6 +33,16 @@ class Instance:
             self.ignored = {tuple(e) for e in ign}
             self.scale = {tuple(e): s for e, s in scal}
             self.hstarts, self.hends = self.starts, self.ends
+        # edge lengths as the DAG model defines them (length_attr; missing => 1; connector edges of the expansion => 0)
+        la = kw.get("length_attr")
+        self.edge_len = None
+        if la is not None:
+            if self.node_mode:
+                self.edge_len = {e: 0 for e in self.H.edges()}
+                for v, d in G.nodes(data=True):
+                    self.edge_len[self.ne[v]] = d.get(la, 1)
+            else:
+                self.edge_len = {(u, v): d.get(la, 1) for u, v, d in G.edges(data=True)}
         self.ignored |= {e for e, s in self.scale.items() if s == 0}
         self.f_req = {e: v for e, v in self.f.items() if e not in self.ignored}
         self.G = G
@@ -71,7 +81,10 @@ class Instance:
         """Path length as the DAG model defines it: number of edges of the route plus the two synthetic edges."""
         if not factors:
             return 1.0
-        length = sum(mult_counter.values()) + 2
+        if self.edge_len is not None:
+            length = sum(self.edge_len.get(e, 1) * m for e, m in mult_counter.items()) + 2
+        else:
+            length = sum(mult_counter.values()) + 2
         for (lo, hi), c in zip(ranges, factors):
             if lo <= length <= hi:
                 return c
